@@ -74,6 +74,10 @@ def fold(e, env):
         return tuple(fold(x, env) for x in e.elts)
     if isinstance(e, ast.Set):
         return frozenset(fold(x, env) for x in e.elts)
+    if isinstance(e, ast.Dict):
+        if any(k is None for k in e.keys):
+            raise _NoFold
+        return {fold(k, env): fold(v, env) for k, v in zip(e.keys, e.values)}
     if isinstance(e, ast.UnaryOp) and isinstance(e.op, ast.Not):
         return not fold(e.operand, env)
     if isinstance(e, ast.BoolOp):
